@@ -1,11 +1,12 @@
 (** C06 -- text written by writeq/write_canonical reads back as the same term.
     Property theorems only.  PARTIAL: the theorem covers the canonical fragment
     (plain atoms, integers, compounds in functional notation, any nesting, any
-    continuation of the text); operators, quoting, floats, lists, variables and the
+    continuation of the text) and the quoting of atoms (every text, every set of
+    accepted characters); operators, floats, lists, variables and the
     flags are decided on the implementation by round trips over generated terms
     and operator tables, which is testing, not proof. *)
 From Coq Require Import ZArith Bool List String.
-From PV Require Import Model.Term Model.Canon Proofs.Canon.
+From PV Require Import Model.Term Model.Canon Proofs.Canon Model.Quote Proofs.Quote.
 Import ListNotations.
 
 Theorem C06_canonical_roundtrip : forall t, canon_ok t = true ->
@@ -15,7 +16,14 @@ Proof. exact canonical_roundtrip. Qed.
 Theorem C06_canonical_roundtrip_text : forall t, canon_ok t = true -> parse (S (tsize t)) (pr t) = Some (t, []).
 Proof. exact canonical_roundtrip_text. Qed.
 
+(** quoted atoms: for every text of valid code points and whatever characters the reader
+    accepts between quotes, reading what quote() wrote gives the text back *)
+Theorem C06_quoted_atom_roundtrip : forall (accept : Z -> bool) (s : list Z),
+  Forall (fun c => valid_cp c = true) s -> read_quoted accept (quote accept s) = Some s.
+Proof. exact read_quoted_quote. Qed.
+
 Print Assumptions C06_canonical_roundtrip.
+Print Assumptions C06_quoted_atom_roundtrip.
 
 Open Scope string_scope.
 Example C06_nonvacuous :
